@@ -203,7 +203,7 @@ func alphabetPrepop() []op {
 		ops = append(ops, op{kind: "set", keys: []string{"a"}, vals: []string{v}, ttl: 5 * time.Second})
 		ops = append(ops, op{kind: "add", keys: []string{"a"}, vals: []string{v}, ttl: 5 * time.Second})
 	}
-	ops = append(ops, op{kind: "get", keys: []string{"a"}}, op{kind: "delete", keys: []string{"a"}},
+	ops = append(ops, op{kind: "get", keys: []string{"a"}}, op{kind: "get", keys: []string{"a", "1@a"}}, op{kind: "delete", keys: []string{"a"}},
 		op{kind: "advance", d: 2 * time.Second}, op{kind: "advance", d: 4 * time.Second})
 	return ops
 }
@@ -246,6 +246,9 @@ type refEntry struct {
 	stored  time.Duration // virtual offset
 	ttl     time.Duration
 	deleted bool
+	// extended: latest instant up to which an in-memory layer may still serve the entry: a read made while the
+	// backend entry is alive may back-fill it for the default retention (zero: nothing back-filled yet)
+	extended time.Duration
 }
 
 // run executes one sequence on a fresh stack; returns a violation description or "".
@@ -345,12 +348,17 @@ func run(cfg stackCfg, seq []op) (viol string, hits int) {
 				case !bytes.Equal(v, values[e.val]):
 					return fmt.Sprintf("step %d %s: key %q returned %q, the most recently stored value is %s=%q", i, o, k, v, e.val, values[e.val]), hits
 				}
+				// serve-until = the later of the entry's TTL and (latest read made while the backend entry was alive) + in-memory
+				// retention: only such a read can have back-filled the in-memory layer; a read served from memory alone renews nothing
 				limit := e.stored + e.ttl
-				if hasLRU {
-					limit += lruDefaultTTL // a read just before backend expiry back-fills the in-memory layer for its default retention
+				if hasLRU && e.extended > limit {
+					limit = e.extended
 				}
 				if now >= limit {
-					return fmt.Sprintf("step %d %s: key %q (stored at +%v ttl %v) still served at +%v, beyond TTL plus in-memory retention", i, o, k, e.stored, e.ttl, now), hits
+					return fmt.Sprintf("step %d %s: key %q (stored at +%v ttl %v, last read while the backend entry was alive at +%v) still served at +%v, beyond the later of its TTL and that read + in-memory retention %v", i, o, k, e.stored, e.ttl, e.extended-lruDefaultTTL, now, lruDefaultTTL), hits
+				}
+				if hasLRU && now < e.stored+e.ttl && now+lruDefaultTTL > e.extended {
+					e.extended = now + lruDefaultTTL
 				}
 				hits++
 			}
@@ -367,8 +375,8 @@ func TestC19Wrappers(t *testing.T) {
 	}
 	cfgs := stacks()
 	a1, a2, a3, a4 := alphabet(1), alphabet(2), alphabetPrepop(), alphabetAlloc()
-	rep.Bound = fmt.Sprintf("%d stack configurations (every ordering of every non-empty subset of {in-memory LRU (size 1 and 2, default retention 3s), versioned, snappy} over the in-process backend, plus two clients with versions 1 and 11 sharing one backend, plus stacks whose backend was pre-populated by another process running the same stack — those one step deeper over a 12-operation alphabet, plus the 8 orderings of {LRU, snappy} and {LRU, versioned, snappy} read with a caller-side recycling Allocator — one step deeper over an 11-operation alphabet whose values include one that is itself a well-formed snappy stream); every operation sequence of length <= %d (thorough: that depth for the stacks of an in-memory layer with at most one more wrapper, one less for the others) over %d operations (%d for the shared configuration): set/add/async/multi sets with values {x, y, two different 40-byte incompressible values (also in one batch), empty, 40 zero bytes} and TTL 0/1s/5s on keys {a, \"1@a\"}, get-multi, delete, clock advance 2/4/6 s", len(cfgs), depth, len(a1), len(a2))
-	rep.Rule = "each sequence replayed on a fresh real stack (virtual clock for the in-memory layer, Advance for the backend) against a map-with-expiry reference: a read returns only requested keys, only the most recently stored value of that client/version byte for byte, never after deletion, never beyond TTL (+ in-memory retention); Add fails iff the backend holds an unexpired entry; distinct_nontrivial = sequences with at least one cache hit"
+	rep.Bound = fmt.Sprintf("%d stack configurations (every ordering of every non-empty subset of {in-memory LRU (size 1 and 2, default retention 3s), versioned, snappy} over the in-process backend, plus two clients with versions 1 and 11 sharing one backend, plus stacks whose backend was pre-populated by another process running the same stack — those two steps deeper over a 13-operation alphabet (the other process writes first only), plus the 8 orderings of {LRU, snappy} and {LRU, versioned, snappy} read with a caller-side recycling Allocator — one step deeper over an 11-operation alphabet whose values include one that is itself a well-formed snappy stream); every operation sequence of length <= %d (thorough: that depth for the stacks of an in-memory layer with at most one more wrapper, one less for the others) over %d operations (%d for the shared configuration): set/add/async/multi sets with values {x, y, two different 40-byte incompressible values (also in one batch), empty, 40 zero bytes} and TTL 0/1s/5s on keys {a, \"1@a\"}, get-multi, delete, clock advance 2/4/6 s", len(cfgs), depth, len(a1), len(a2))
+	rep.Rule = "each sequence replayed on a fresh real stack (virtual clock for the in-memory layer, Advance for the backend) against a map-with-expiry reference: a read returns only requested keys, only the most recently stored value of that client/version byte for byte, never after deletion, never beyond the later of its TTL and (latest read made while the backend entry was alive) + in-memory retention; Add fails iff the backend holds an unexpired entry; distinct_nontrivial = sequences with at least one cache hit"
 	deadline := ev.Deadline(8 * time.Minute)
 	type job struct {
 		cfg stackCfg
@@ -393,7 +401,7 @@ func TestC19Wrappers(t *testing.T) {
 					}
 					if cfg.prepop {
 						alp = a3
-						depth++
+						depth += 2
 					}
 					if cfg.alloc {
 						alp = a4
@@ -428,6 +436,9 @@ func TestC19Wrappers(t *testing.T) {
 						for _, o := range alp {
 							if len(seq) == 0 && o.String() != alp[first].String() {
 								continue
+							}
+							if cfg.prepop && o.who == 1 && len(seq) > 0 {
+								continue // the other process writes only before the client under test starts
 							}
 							seq = append(seq, o)
 							rec()
